@@ -54,6 +54,9 @@ parsec_hbbuffer_push_all(parsec_hbbuffer_t *b,
         PARSEC_LIST_ITEM_SINGLETON(elt);
         /* Try to find a room for elt */
         for(; (size_t)i < b->size; i++) {
+#if defined(PARSEC_VERIF)
+            PARSEC_VERIF_YIELD(PARSEC_VERIF_SITE_HBBUFFER);
+#endif
             if( NULL != b->items[i] || 0 == parsec_atomic_cas_ptr(&b->items[i], NULL, elt) )
                 continue;
             PARSEC_DEBUG_VERBOSE(20, parsec_debug_output,  "HBB:\tPush elem %p in local queue %p at position %d", elt, b, i );
@@ -141,6 +144,9 @@ parsec_hbbuffer_push_all_by_priority(parsec_hbbuffer_t *b,
 
         if( best_index > -1 ) {
             /* found a nice place, try to CAS */
+#if defined(PARSEC_VERIF)
+            PARSEC_VERIF_YIELD(PARSEC_VERIF_SITE_HBBUFFER);
+#endif
             if( 1 == parsec_atomic_cas_ptr( &b->items[best_index], best_context, topush ) ) {
                 /* Woohoo ! Success... */
 #if defined(PARSEC_DEBUG_NOISIER)
@@ -241,6 +247,9 @@ parsec_hbbuffer_pop_best(parsec_hbbuffer_t *b, off_t priority_offset)
             }
         }
 
+#if defined(PARSEC_VERIF)
+        PARSEC_VERIF_YIELD(PARSEC_VERIF_SITE_HBBUFFER);
+#endif
         if( NULL == best_elt)
             break;
 
